@@ -125,6 +125,8 @@ class Program:
         reg = glob.glob(os.path.expanduser('~/.cargo/registry/src/*/amq-protocol-1.4.0/src/frame/structs.rs'))
         if reg:
             extra.append((reg[0], ['amq_protocol', 'frame']))
+        for p in glob.glob(os.path.expanduser('~/.cargo/registry/src/*/amq-protocol-types-*/src/value.rs')):
+            extra.append((p, ['amq_protocol', 'types']))
         self.types = TypeTables(os.path.join(src_root, 'src'), extra)
         self._src_cache = {}
         self.ext_consts = {}
@@ -326,6 +328,16 @@ class Program:
                     if len(a2) >= 2 and len(b2) >= 2 and a2[-2] != b2[-2]:
                         continue
                     cands.append(f)
+            if not cands:
+                # blanket impl:  impl<T: Bound> Trait for T
+                for f in self.index.get(meth, []):
+                    ii = self.meta[id(f)]['impl']
+                    if ii and ii.trait and last_seg(ii.trait) == trl and len(f.args) == nargs and ii.self_ty.strip() in ii.generics:
+                        b = {ii.self_ty.strip(): ty}
+                        fg = self.meta[id(f)]['fn_generics'] or []
+                        for p, a in zip(fg, generic_args('X<' + tf + '>') if tf else []):
+                            b[p] = a
+                        return f, b
             if len(cands) > 1:
                 # disambiguate generic trait instantiations (e.g. Index<RangeFrom<usize>>) by trait args / module
                 c2 = [f for f in cands if base_type(self.meta[id(f)]['impl'].self_ty) == base_type(ty) or
